@@ -1,6 +1,7 @@
 (* C04 - Retries are bounded, counted and backed off as configured.
    Statements only; every proof is `exact <lemma>`. *)
 From Repid Require Import Base Sched Handle Ladder LadderProofs.
+From Repid Require Import GenSched GenSchedProofs.
 
 (* retries = N, every attempt failing: exactly N+1 executions (from tried = 0), then dead-letter or reschedule *)
 Theorem C04_chain_all_fail : forall pol outs p,
@@ -40,9 +41,17 @@ Theorem C04_retry_budget : forall pol h now d,
   r_max (p_retries (h_p h)) <= r_tried (p_retries (h_p h)) -> wanted pol h (HRetry d) now = None.
 Proof. exact HandleProofs.retry_budget. Qed.
 
+(* the source is the model: generated from /repo's current source on every run (harness/translate.py), proved equal *)
+Theorem C04_source_is_model_prepare_retry : forall p now back, gen_prepare_retry p now back = prepare_retry p now back.
+Proof. exact gen_prepare_retry_eq. Qed.
+Theorem C04_source_is_model_backoff : forall a b m e n, gen_backoff_us a b m e n = backoff_us a b m e n.
+Proof. exact gen_backoff_eq. Qed.
+
 Print Assumptions C04_chain_all_fail.
 Print Assumptions C04_chain_counter.
 Print Assumptions C04_chain_success_stops.
 Print Assumptions C04_retry_due.
 Print Assumptions C04_retry_filed_under_due.
 Print Assumptions C04_retry_budget.
+Print Assumptions C04_source_is_model_prepare_retry.
+Print Assumptions C04_source_is_model_backoff.
